@@ -1,4 +1,4 @@
-\* input generation: all class strings of length <= 5 (111111 states)
+\* input generation: all class strings of length <= 5 (271453 states)
 SPECIFICATION GenSpec
 CONSTANTS MaxLen = 5 MaxTokens = 0 MaxPos = 0
 INVARIANT GenTypeOK
